@@ -164,7 +164,7 @@ def lock_abs_check(prop, tier, seed, switches, plan, fifo=False, crash_is_stuck=
             sig += extra_sig(again[0], h2, line)
         violations.append({
             'desc': '%s: history of program %s (schedule %s) is not a behaviour of LockAbs[%s]; first unexplained event #%d: %s'
-                    % (prop, ex.prog, ex.sched, '+'.join(switches), line,
+                    % (prop, ex.prog, rle(ex.sched), '+'.join(switches), line,
                        {k: v for k, v in bad.items() if v not in (-1, '-')}),
             'signature': sig,
             'replay': {'kind': 'lock', 'cls': cls, 'program': ptext, 'schedule': ex.sched, 'switches': list(switches),
